@@ -23,7 +23,7 @@ RULE = ("stores populated directly with rows of a generated fixture package: 0..
         "rows of 29 kinds (module / submodule / middle package removed, function removed, function now an int / a class / a "
         "settable property, local-scope qualname, argument / return / yield class removed, class's module or middle package "
         "removed, name now bound to a non-type, malformed generic); every single kind and every pair of kinds exhaustively around "
-        "a fixed base; commands stub and apply, with and without -v, with and without a :qualname filter. Oracle: differential "
+        "a fixed base; commands stub, stub --diff and apply, with and without -v, with and without a :qualname filter. Oracle: differential "
         "against the same command on the valid rows alone + exact failure count on stderr. Non-trivial: >=1 valid and >=1 stale "
         "row selected together; distinct by digest of (rows, command).")
 ASSUMPTIONS = ["a row whose only staleness is a vanished parameter name is valid (it decodes; the stub ignores the name)",
@@ -189,7 +189,7 @@ class Fixture:
         os.environ.update(MTV_DB=self.db, MTV_K="0", MTV_RW="noop")
         open(self.mod_path, "w").write(MOD_SRC)
         out, err = io.StringIO(), io.StringIO()
-        argv = ["-c", "fx_cfg:CONFIG"] + (["-v"] if verbose else []) + [cmd, target]
+        argv = ["-c", "fx_cfg:CONFIG"] + (["-v"] if verbose else []) + ([cmd, target] if cmd != "diff" else ["stub", "--diff", target])
         try:
             rc = cli.main(argv, out, err)
             exc = None
@@ -251,11 +251,13 @@ def run_case(ctx, fx, rowspec, cmd, verbose, qual, target_mod="mod"):
         if got["out"].strip() or not no_traces:
             return ctx.fail("C10/no-traces-message-missing", spec, f"nothing decodable, stdout={got['out'][:100]!r} stderr={got['err'][:300]!r}")
         extra = [l for l in extra if l not in no_traces]
+    # `stub --diff` generates the stub twice (once per strategy): the report may come once or once per pass
+    passes = (1, 2) if cmd == "diff" else (1,)
     if verbose:
-        if len(extra) != n_stale:
+        if len(extra) not in [n_stale * p for p in passes]:
             return ctx.fail("C10/skipped-traces-misreported", spec, f"-v: {len(extra)} extra stderr lines, {n_stale} stale rows selected; stderr: {got['err'][:500]}")
     else:
-        ok = (not extra) if n_stale == 0 else (len(extra) == 1 and re.search(r"(?<!\d)%d(?!\d)" % n_stale, extra[0]) is not None)
+        ok = (not extra) if n_stale == 0 else (len(extra) in passes and all(re.search(r"(?<!\d)%d(?!\d)" % n_stale, x) is not None for x in extra))
         if not ok:
             return ctx.fail("C10/skipped-traces-misreported", spec, f"{n_stale} stale rows selected but stderr says {extra}")
 
@@ -300,7 +302,7 @@ def tables(ctx, fx):
     idx = 0
     for kind in kinds:
         for pos in range(4):
-            for cmd, verbose, qual in (("stub", False, None), ("stub", True, None), ("apply", False, None), ("stub", False, "f"), ("stub", True, "K")):
+            for cmd, verbose, qual in (("stub", False, None), ("stub", True, None), ("apply", False, None), ("stub", False, "f"), ("stub", True, "K"), ("diff", pos % 2 == 0, "f" if pos == 3 else None)):
                 idx += 1
                 if idx % ctx.nshards != ctx.shard:
                     continue
@@ -310,6 +312,20 @@ def tables(ctx, fx):
                     run_case(ctx, fx, rs, cmd, verbose, qual)
                 except core.Violation as v:
                     ctx.record_violation(v.signature, v.spec, v.message)
+    # a :qualname filter that selects ONLY stale rows (the module also has valid ones): nothing decodable for that query
+    S_ = fx.stale_rows()
+    for j, kind in enumerate(kinds):
+        q_ = S_[kind][1]
+        if q_ in ("f", "g", "K.m", "gen") or S_[kind][0] != fx.pkg + ".mod":
+            continue
+        for cmd, verbose in (("diff", j % 2 == 0), ("stub", j % 2 == 1)):
+            idx += 1
+            if idx % ctx.nshards != ctx.shard:
+                continue
+            try:
+                run_case(ctx, fx, [["v", 0, 0], ["s", kind, 1], ["v", 3, 1], ["s", kind, 2]], cmd, verbose, q_)
+            except core.Violation as v:
+                ctx.record_violation(v.signature, v.spec, v.message)
     if ctx.tier == "thorough" or True:
         for a, b in itertools.combinations(kinds, 2):
             idx += 1
@@ -336,7 +352,7 @@ def shard(ctx):
             row = st.one_of(st.tuples(st.just("v"), st.integers(0, 5), st.integers(0, 3)).map(list),
                             st.tuples(st.just("s"), st.sampled_from(kinds), st.integers(0, 3)).map(list))
 
-            @given(st.lists(row, max_size=10), st.sampled_from(["stub", "stub", "apply"]), st.booleans(),
+            @given(st.lists(row, max_size=10), st.sampled_from(["stub", "stub", "apply", "diff"]), st.booleans(),
                    st.sampled_from([None, None, "f", "K", "K.m", "g", "nosuch"]))
             def test(rows, cmd, verbose, qual):
                 run_case(ctx, fx, rows, cmd, verbose, qual)
